@@ -468,6 +468,17 @@ def _elab_block(ast, b, model):
                 empty = "complete crossing required but combinations are excluded or impossible"
             if s.size == 0:
                 model.gaps.append("crossing-size-zero")
+        if rcc:
+            # a level of a crossed derived factor - of any window kind - that no window of inputs can ever select cannot take
+            # part in a complete crossing (the library reports the crossing as not satisfiable and returns nothing)
+            for cids in crossings_ids:
+                for fid in cids:
+                    f = F[fid]
+                    if f.kind == "derived":
+                        universe = key_universe(f, False)
+                        for lv in f.levels:
+                            if not any(matching_levels(f, key) == [lv] for key in universe):
+                                empty = empty or "crossed derived level %s:%s matches no window; complete crossing required" % (f.name, lv)
         mins = _mintrials(b)
         min_trials = max(mins + [0])
         if k == "cross":
